@@ -218,6 +218,19 @@ def run(ck: Check):
             for bad, shp in shapes:
                 got = outcome(lambda: l(torch.rand(*shp)))
                 record(f"conv{dims}d-forward", {"channels": C, "in_dim": n, "x_shape": shp, "bad": bad}, bad == "ok", got)
+            # strides above 1: an image one or two pixels too large gives the same number of window positions (floor division) - it is
+            # still not the declared image
+            for stride, rf, pad in ((2, 3, 0), (3, 3, 1), (2, 2, 1)):
+                ls = cls(in_dim=tuple(v + 3 for v in n), device="cpu", channels=C, num_kernels=2, tree_depth=1, receptive_field_size=rf, stride=stride,
+                         padding=pad)
+                big = [v + 3 for v in n]
+                for bad, shp in (("ok", [2, C] + big), ("one-pixel-larger", [2, C] + [v + 1 for v in big]),
+                                 ("one-axis-one-pixel-larger", [2, C] + [big[0] + 1] + big[1:]), ("last-axis-larger-by-stride-1", [2, C] + big[:-1] + [big[-1] + stride - 1])):
+                    if shp == [2, C] + big and bad != "ok":
+                        continue
+                    got = outcome(lambda: ls(torch.rand(*shp)))
+                    record(f"conv{dims}d-forward", {"channels": C, "in_dim": big, "stride": stride, "rf": rf, "padding": pad, "x_shape": shp, "bad": bad},
+                           bad == "ok", got)
             if dims == 2:
                 for mode in ("gumbel_soft", "gumbel_hard"):
                     for par in ("raw", "walsh"):
